@@ -18,6 +18,7 @@ MODEL = {
         "echo": {"type": "Int", "args": {"x": {"type": "Int", "default": 7}, "r": {"type": "Role"}}},
         "search": {"type": "Int", "args": {"ids": {"type": "[Int]"}, "f": {"type": "Filter"}, "s": {"type": "String"}}},
         "when": {"type": "Date"},
+        "req": {"type": "Int", "args": {"n": {"type": "Int!"}, "m": {"type": "Int!", "default": 3}, "l": {"type": "[Int!]!"}}},
     }},
     "Mutation": {"kind": "object", "interfaces": [], "fields": {"bump": {"type": "Int", "args": {"by": {"type": "Int!"}}}, "me": {"type": "User"}}},
     "Node": {"kind": "interface", "fields": {"id": {"type": "ID"}, "name": {"type": "String"}}},
@@ -43,6 +44,7 @@ FNS = {
     ("User", "score"): lambda root, args: None if args.get("scale") is None else root["base_score"] * args["scale"],
     ("Mutation", "bump"): lambda root, args: args["by"] + 1,
     ("User", "scaled"): lambda root, args: root["base_score"] * args["by"],
+    ("Query", "req"): lambda root, args: args["n"] + args["m"] + len(args["l"]),
 }
 
 
